@@ -56,7 +56,15 @@ reg('C16', 'propchecks.relprops', 'proof', T_C16 + T1[:1], [ASCII, DEPTH, CORR,
 reg('C17', 'propchecks.relprops', 'proof', [('Bashlex.C13.' + t, C13M) for t in ['parsesingle_eq_head', 'parsesingle_exn_iff', 'parse_exn_of_parsesingle_exn', 'parsesingle_of_parse_exn']] + T6 + [('Bashlex.parse_strict_irrelevant', QC), ('Bashlex.parse_proceed_irrelevant', QC),
       ('Bashlex.parsesingle_strict_irrelevant', QC), ('Bashlex.parsesingle_proceed_irrelevant', QC)], [ASCII, DEPTH, CORR])
 
-reg('C11', 'propchecks.c11', 'proof', T1[:1] + [('Bashlex.Q.run_touched_irrelevant', QC), ('Bashlex.History.results_eq_solo', QC)], [ASCII, DEPTH, CORR])
+C11M = 'Bashlex.Props.C11'
+T_C11 = [('Bashlex.C11.' + t, C11M) for t in ['nextToken_good', 'gather_good', 'pError_ht', 'tok_no_init_assert', 'C11_later', 'topParsing_source', 'topParsing_eof', 'topParsing_token',
+         'C11_parserRun_conditional', 'no_init_assert_conditional', 'C11_parse_conditional', 'C11_toplevel_conditional', 'C11_first_conditional', 'C11_position_conditional',
+         "C01_partial'_conditional", 'witness_later', 'witness_nested', 'witness_heredoc']]
+reg('C11', 'propchecks.c11', 'proof', T_C11 + T1[:1] + [('Bashlex.Q.run_touched_irrelevant', QC), ('Bashlex.History.results_eq_solo', QC)], [ASCII, DEPTH, CORR,
+    'unconditional: the tokenizer keeps its cursor inside the line (Good), every delivered token starts inside the line, every ParsingError raise site of the tokenizer and both p_error messages pass 0 <= p <= len(src) '
+    '(the assert of ParsingError.__init__ cannot fire there), an error of a later part is the unchanged error of a run on the suffix (C11_later, finding D15 stated exactly). Conditional on TokLen (a backquote at index k of a '
+    'token value lies inside the line; needed only for the bad-substitution error; no counterexample in 2.3M fuzzed tokens): position range for every escaping ParsingError at every depth, source of a top-level error = the input '
+    '(the here-document error carries the appended newline), unexpected EOF => p = len(src), unexpected token => p = lexpos of a delivered token. Not proved: the text at p is the token'])
 
 reg('C09', 'propchecks.lrcheck', 'proof', T1, ['the <= direction (every derivable sentence is accepted) is not proved: it is evaluated against an Earley recogniser on all enumerated token sequences', CORR])
 reg('C08', 'propchecks.c08', 'proof', T1, [ASCII, DEPTH, CORR])
@@ -73,7 +81,14 @@ reg('C06', 'propchecks.c06', 'proof', T_C06 + T1[:1], [ASCII, DEPTH, CORR,
     '(and K7x, quotes inside ${...}, for words with parameters) whose QUOTED flag is consistent; words with command/process substitutions, backquotes, tildes and '
     'here-document bodies are decided per input against the same Lean definition'])
 
-reg('C07', 'propchecks.c07', 'proof', T1[:1], [ASCII, DEPTH, CORR])
+C07M = 'Bashlex.Props.C07'
+T_C07 = [('Bashlex.C07.' + t, C07M) for t in ['C07_partial', 'C07_partial_single', 'C07_partial_subst', 'C07_word', 'C07_exact', "C07_exact'", 'C07_protected', 'C07_protected_internal', 'C07_nested',
+         'sat_expandwordinternal', 'Reach.sorted', 'Reach.opener_accounted', 'Reach.escaped_not_head', 'dollar_span_tight', 'dollar_span_loose', 'stringextract_first', 'parserRun_G']]
+reg('C07', 'propchecks.c07', 'proof', T_C07 + T1[:1], [ASCII, DEPTH, CORR,
+    'C07_partial: every word/assignment node of every successful parse (any depth) comes from a delivered token and its substitution parts are exactly the nested parser runs on the text after each opener the scan reaches, '
+    'shifted to their offset, in scan order, disjoint, inside the word (PartsOK); C07_protected: a wholly single-quoted word and a word whose expansion characters are all backslash-escaped have no parts, for every nested parser. '
+    'NOT proved: that the nested run (inherited last tokens, shared parser-state flags, the ")" end token) equals the stand-alone parse of the enclosed text, and that the token value is the source text - both decided per input; '
+    'D6 (opener has no quote state), D9/D27 (loose span end) are reproduced with kernel-checked witnesses'])
 
 C10M = 'Bashlex.Props.C10'
 T_C10 = [('Bashlex.C10.' + t, C10M) for t in ['readline_spec', 'makeheredoc_spec', 'gather_spec', 'specGather_nil', 'specGather_cons', 'specGatherS_fifo',
